@@ -927,23 +927,24 @@ func (pc *PeerConnection) CreateAnswer(options *AnswerOptions) (SessionDescripti
 		return SessionDescription{}, &rtcerr.InvalidStateError{Err: ErrIncorrectSignalingState}
 	}
 
-	connectionRole := connectionRoleFromDtlsRole(pc.api.settingEngine.answeringDTLSRole)
-	if connectionRole == sdp.ConnectionRole(0) {
-		dtlsRole := dtlsRoleFromSDP(remoteDesc.parsed)
-		switch dtlsRole {
-		case DTLSRoleClient:
-			connectionRole = connectionRoleFromDtlsRole(DTLSRoleServer)
-		case DTLSRoleServer:
-			connectionRole = connectionRoleFromDtlsRole(DTLSRoleClient)
-		default:
+	// An explicit role in the offer leaves no choice (RFC 5763 S5): answer with the opposite one.
+	// This is also what DTLSTransport.role() does once the transport starts.
+	var connectionRole sdp.ConnectionRole
+	switch dtlsRoleFromSDP(remoteDesc.parsed) {
+	case DTLSRoleClient:
+		connectionRole = connectionRoleFromDtlsRole(DTLSRoleServer)
+	case DTLSRoleServer:
+		connectionRole = connectionRoleFromDtlsRole(DTLSRoleClient)
+	default:
+		connectionRole = connectionRoleFromDtlsRole(pc.api.settingEngine.answeringDTLSRole)
+		if connectionRole == sdp.ConnectionRole(0) {
 			connectionRole = connectionRoleFromDtlsRole(defaultDtlsRoleAnswer)
-		}
-
-		// If one of the agents is lite and the other one is not, the lite agent must be the controlled agent.
-		// If both or neither agents are lite the offering agent is controlling.
-		// RFC 8445 S6.1.1
-		if isIceLiteSet(remoteDesc.parsed) && !pc.api.settingEngine.candidates.ICELite {
-			connectionRole = connectionRoleFromDtlsRole(DTLSRoleServer)
+			// If one of the agents is lite and the other one is not, the lite agent must be the controlled agent.
+			// If both or neither agents are lite the offering agent is controlling.
+			// RFC 8445 S6.1.1
+			if isIceLiteSet(remoteDesc.parsed) && !pc.api.settingEngine.candidates.ICELite {
+				connectionRole = connectionRoleFromDtlsRole(DTLSRoleServer)
+			}
 		}
 	}
 	pc.mu.Lock()
